@@ -17,6 +17,7 @@ type Engine struct {
 	CS      *ContractSet
 	effects map[*ssa.Function]map[string]bool
 	files   []*ast.File
+	globals map[*ssa.Global]*globalInfo
 }
 
 func newEngine() (*Engine, error) {
@@ -32,6 +33,7 @@ func newEngine() (*Engine, error) {
 	for _, p := range l.Pkgs {
 		E.files = append(E.files, p.Syntax...)
 	}
+	E.scanGlobals()
 	return E, nil
 }
 
@@ -106,6 +108,9 @@ func (E *Engine) encodeFunc(key string) (enc *FnEnc, err error) {
 	}
 	enc.prePC = f.curPC
 	enc.preNDecls = len(enc.decls)
+	if fc.PureIf != nil {
+		enc.pureCond = enc.define("pure!cond", "Bool", f.evalContractBool(fc.PureIf, f.curHeap, nil, nil))
+	}
 	f.encodeBody(f.curPC, f.curHeap)
 	f.postconditions()
 	f.throwObligations()
